@@ -221,15 +221,13 @@ func (d *Def) Clone() *Def {
 
 func ValText(v Val) string { return world.ValueText(v) }
 
-// DescText renders a description as a GraphQL string: a block string when it spans lines, else a quoted string.
+// DescText renders a description as a single-line GraphQL string literal (escapes for quotes, backslashes,
+// newlines and control characters), so that what the loader must read is unambiguous.
 func DescText(desc, indent string) string {
 	if desc == "" {
 		return ""
 	}
-	if strings.Contains(desc, "\n") {
-		return indent + "\"\"\"\n" + indent + strings.ReplaceAll(strings.ReplaceAll(desc, `"""`, `\"""`), "\n", "\n"+indent) + "\n" + indent + "\"\"\"\n"
-	}
-	return indent + fmt.Sprintf("%q", desc) + "\n"
+	return indent + world.GQLQuote(desc) + "\n"
 }
 
 func dirsText(ds []DirUse) string {
